@@ -173,8 +173,12 @@ def execute_rules(ctx, case):
 def agg_cases(draw):
   rules = [draw(aggpat.rules(idx=i)) for i in range(draw(st.integers(0, 4)))]
   conf = draw(c05.configs())
-  names = draw(st.lists(aggpat.names_for(rules), min_size=2, max_size=12))
-  return {'kind': 'agg', 'rules': rules, 'styles': [draw(st.integers(0, 1)) for _ in rules],
+  # optionally a second generation of the rules file, picked up by the rule manager's reload while the router lives
+  rules2 = None
+  if draw(st.integers(0, 2)) == 0:
+    rules2 = [draw(aggpat.rules(idx=10 + i)) for i in range(draw(st.integers(0, 3)))]
+  names = draw(st.lists(aggpat.names_for(rules + (rules2 or [])), min_size=2, max_size=12))
+  return {'kind': 'agg', 'rules': rules, 'rules2': rules2, 'styles': [draw(st.integers(0, 1)) for _ in rules],
           'dests': conf['dests'], 'rf': conf['rf'], 'diverse': conf['diverse'], 'hash': conf['hash'],
           'router': draw(st.sampled_from(['aggregated-consistent-hashing', 'aggregated-consistent-hashing',
                                           'fast-aggregated-hashing'])),
@@ -246,38 +250,54 @@ def execute_agg(ctx, case):
       return ref_destinations(case, ref, key)
   by_agg = {}
   nt = False
-  for name in case['names']:
-    try:
-      got = set(router.getDestinations(name))
-    except Exception as e:  # noqa
-      ctx.fail('C16:getDestinations-raised:%s' % type(e).__name__, 'getDestinations(%r) raised %r' % (name, e), case)
-      return
-    per_rule = [aggpat.aggregates(r, name) for r in case['rules']]
-    per_rule = [a for a in per_rule if a]
-    if not per_rule:
-      options = [set(base(name))]
-      chosen = [[name]]
-    else:
-      options = []
-      chosen = []
-      for combo in itertools.islice(itertools.product(*per_rule), 64):
-        u = set()
-        for a in combo:
-          u |= base(a)
-        options.append(u)
-        chosen.append(list(combo))
-    if got not in options:
-      ctx.fail('C16:aggregate-routing-mismatch',
-               'router %s: metric %r -> %r; its aggregate names %r hash to %r\nrules:\n%s' % (
-                 case['router'], name, sorted(got, key=repr), chosen[0], sorted(options[0], key=repr), '\n'.join(lines)),
-               dict(case, names=[name]), 'aggregate-hash')
-      return
-    if per_rule and len(per_rule) == 1 and len(per_rule[0]) == 1:
-      a = per_rule[0][0]
-      by_agg.setdefault(a, set()).add(name)
-      if len(by_agg[a]) >= 2 and len(case['dests']) >= 2:
-        nt = True
-  ctx.note(case, nontrivial=nt, classes=['agg', case['router'], 'rules=%d' % len(case['rules'])] +
+  generations = [case['rules']]
+  if case.get('rules2') is not None:
+    generations.append(case['rules2'])
+  for gi, current_rules in enumerate(generations):
+    if gi == 1:
+      with open(path, 'w') as f:
+        f.write('\n'.join(aggpat.render(r, 0) for r in current_rules) + '\n')
+      os.utime(path, (2000000100, 2000000100))
+      try:
+        RM.read_rules()          # what the manager's 10 s reload task calls
+      except Exception as e:  # noqa
+        ctx.fail('C16:aggregation-rules-rejected:%s' % type(e).__name__, 'reloading the rule file raised %r' % (e,), case)
+        return
+      by_agg = {}
+      lines = [aggpat.render(r, 0) for r in current_rules]
+    for name in case['names']:
+      try:
+        got = set(router.getDestinations(name))
+      except Exception as e:  # noqa
+        ctx.fail('C16:getDestinations-raised:%s' % type(e).__name__, 'getDestinations(%r) raised %r' % (name, e), case)
+        return
+      per_rule = [aggpat.aggregates(r, name) for r in current_rules]
+      per_rule = [a for a in per_rule if a]
+      if not per_rule:
+        options = [set(base(name))]
+        chosen = [[name]]
+      else:
+        options = []
+        chosen = []
+        for combo in itertools.islice(itertools.product(*per_rule), 64):
+          u = set()
+          for a in combo:
+            u |= base(a)
+          options.append(u)
+          chosen.append(list(combo))
+      if got not in options:
+        ctx.fail('C16:aggregate-routing-mismatch',
+                 'router %s%s: metric %r -> %r; its aggregate names %r hash to %r\nrules:\n%s' % (
+                   case['router'], ' (after the rules file was reloaded)' if gi else '', name, sorted(got, key=repr), chosen[0],
+                   sorted(options[0], key=repr), '\n'.join(lines)),
+                 dict(case, names=[name]), 'aggregate-hash')
+        return
+      if per_rule and len(per_rule) == 1 and len(per_rule[0]) == 1:
+        a = per_rule[0][0]
+        by_agg.setdefault(a, set()).add(name)
+        if len(by_agg[a]) >= 2 and len(case['dests']) >= 2:
+          nt = True
+  ctx.note(case, nontrivial=nt, classes=['agg', case['router'], 'rules=%d' % len(case['rules'])] + (['rules reloaded after construction'] if case.get('rules2') is not None else []) +
            (['two inputs of one aggregate'] if nt else []))
 
 
